@@ -117,4 +117,26 @@ def envelopeClause (S : Nat) (eps : Rat) (kept : List Vec) (r : Vec) (c : Option
     let cands := (match c.b.bind normalize with | some b => [b] | none => []) ++ probeBeliefs S
     if cands.any (fun b => violationOK S eps kept b r) then .bad else .undecided
 
+/-! ### "contains no vector that is nowhere needed": the clause for one KEPT vector `k` against the other kept ones -/
+
+/-- `k` is more than `eps` above every vector of `G` at belief `b` -/
+def strictNeededOK (n : Nat) (eps : Rat) (G : List Vec) (b : Vec) (k : Vec) : Bool :=
+  isBeliefB n b && G.all (fun g => decide (dot b g + eps < dot b k))
+
+/-- candidate beliefs: the certificate's (made exact by `normalize`) and the LP-independent probes -/
+def needCands (S : Nat) (c : Option Cert) : List Vec :=
+  (match c.bind (fun c => c.b.bind normalize) with | some b => [b] | none => []) ++ probeBeliefs S
+
+/-- the certificate's Farkas multipliers, made exact by `normalize` -/
+def needLam (c : Option Cert) : Option Vec := c.bind (fun c => c.lam.bind normalize)
+
+/-- `ok`: a belief (from the certificate or one of the LP-independent probes) where `k` beats all others by more than `epsOk`;
+    `bad`: Farkas multipliers showing a mixture of the OTHER kept vectors covers `k` within `epsBad` on every coordinate,
+    i.e. `k` is nowhere needed; otherwise undecided. -/
+def neededClause (S : Nat) (epsOk epsBad : Rat) (others : List Vec) (k : Vec) (c : Option Cert) : Env :=
+  if (needCands S c).any (fun b => strictNeededOK S epsOk others b k) then .ok else
+  match needLam c with
+  | some l => if farkasOK S epsBad others l k then .bad else .undecided
+  | none => .undecided
+
 end AITB.C12Check
